@@ -508,11 +508,77 @@ def _content(ctx, em):
                'converted from milliseconds without truncation)',
                construct='up-to-date shortcut [%s]' %
                K.controlling(node, graph))
+    # ... and with the placement and the manifest present, the file is
+    # written on every other path (missing nodes are exceptional edges)
+    skip = K.find_path(
+        graph.entry, [graph.exit],
+        cut_node=lambda n: any(n is w for w, _c in writes),
+        cut_edge=lambda e: K.edge_establishes(ctx, cache, nz, e, fresh),
+        follow_exc=False)
+    ctx.ob('C12.5', cache, writes[0][0] if writes else None, skip is None,
+           'a placed instance whose manifest exists gets its cache file '
+           'written unless the existing file is up to date',
+           path=K.describe(skip) if skip else None,
+           construct='cache file written on every path')
     pn = defs.get('placement_node', '')
     ctx.ob('C12.5', cache, None,
            pn == 'z.path.placement(self._hostname, %s)' % app,
            "placement data is read from this host's placement node: %s" %
            pn, construct='placement node')
+
+
+def _first_sync(ctx, em):
+    """The first synchronisation after a start re-checks the files that
+    already exist: the watch callback asks for check_existing while the
+    'placement ready' event is not yet set, and the event is set only after
+    the children watch was registered (kazoo runs the callback once,
+    synchronously, when the watch is registered)."""
+    run = em.methods.get('run')
+    ctx.require(run is not None, 'EventMgr.run')
+    nested = run.nested()
+    flag = None
+    watch = None
+    for name, func in nested.items():
+        for sub in K.walk_no_nested(func.node):
+            if isinstance(sub, ast.Call) and K.is_meth(sub, '_synchronize'):
+                arg = K.kwarg(sub, 'check_existing')
+                if arg is None and len(sub.args) > 2:
+                    arg = sub.args[2]
+                arg = K.rexpr(func, arg) if arg is not None else None
+                ok = isinstance(arg, ast.UnaryOp) and \
+                    isinstance(arg.op, ast.Not) and \
+                    isinstance(arg.operand, ast.Call) and \
+                    K.is_meth(arg.operand, 'is_set')
+                ctx.ob('C12.1', func, sub, ok,
+                       'the watch callback checks existing files until the '
+                       'placement-ready event is set: check_existing=%s' %
+                       (N.txt(arg) if arg is not None else None),
+                       construct='check_existing of the watch callback')
+                if ok:
+                    flag = K.recv_text(arg.operand)
+                    watch = name
+    ctx.require(flag is not None, 'watch callback calling _synchronize')
+    registered = 0
+    for func in [run] + list(nested.values()):
+        graph = ctx.cfg(func)
+        regs = [n for n, c in K.nodes_calling(
+            graph, lambda c: K.is_meth(c, 'ChildrenWatch') and any(
+                N.txt(a) == watch for a in c.args))]
+        if not regs:
+            continue
+        registered += len(regs)
+        sets = [n for n, c in K.nodes_calling(
+            graph, lambda c: K.is_meth(c, 'set') and
+            K.recv_text(c) == flag)]
+        for node in sets:
+            ok = K.guarded_by(graph, node, lambda e: e.src in regs and
+                              e.kind != 'exc')
+            ctx.ob('C12.1', func, node, ok,
+                   'the placement-ready event is set only after the '
+                   'children watch was registered (its first, synchronous '
+                   'callback still sees the event clear)',
+                   construct='ready set after watch registration')
+    ctx.require(registered >= 1, 'registration of the children watch')
 
 
 def _owner_package(ctx):
@@ -531,6 +597,7 @@ def check(ctx):
     if ctx.tier == 'thorough':
         _owner_package(ctx)
     em = _sync(ctx)
+    _first_sync(ctx, em)
     _owner(ctx)
     _write_safe(ctx)
     _invisible(ctx, em)
